@@ -83,6 +83,18 @@ func init() {
 		}
 		return CfgStart(a[0], a[1])
 	}
+	Modes["link"] = func(a []string) error {
+		if len(a) != 3 {
+			return fmt.Errorf("link <prefix> <cases.json> <out.ndjson>")
+		}
+		return RunLink(a[0], a[1], a[2])
+	}
+	Modes["leak"] = func(a []string) error {
+		if len(a) != 3 {
+			return fmt.Errorf("leak <prefix> <cases.json> <out.ndjson>")
+		}
+		return RunLeak(a[0], a[1], a[2])
+	}
 	Modes["abmf"] = func(a []string) error {
 		if len(a) != 3 {
 			return fmt.Errorf("abmf <prefix> <behaviours.json> <out.ndjson>")
